@@ -47,6 +47,9 @@ type TBCase struct {
 	// Listen: the service connects by itself (ListenAndServe) instead of
 	// being handed a connection
 	Listen bool `json:"listen,omitempty"`
+	// Outage (queryrelease): one more query event expires while the service
+	// is cut off from the broker, which comes back afterwards
+	Outage bool `json:"outage,omitempty"`
 }
 
 // TierBScenario runs the real nats.go client over net.Pipe against the
@@ -79,6 +82,7 @@ func (TierBScenario) GenCase(r *rand.Rand, prop string) interface{} {
 		c.NQE = 1 + r.IntN(6)
 		c.QueryMs = pick(r, 50, 1000, 3000)
 		c.NQReq = r.IntN(4)
+		c.Outage = chance(r, 40)
 	case "sendreq":
 		c.SvcName = "test"
 		for i, n := 0, 1+r.IntN(4); i < n; i++ {
@@ -368,6 +372,7 @@ func tbQueryRelease(c *TBCase, b *natsim.Broker, h *Hist, out *Outcome) {
 	// the service is up and idle: whatever goroutines the library starts
 	// from here on belong to the query events
 	leakBase := libraryGoroutines()
+	clientSubs := nc.NumSubscriptions()
 	responses := 0
 	sent := 0
 	for k := 0; k < c.NQE; k++ {
@@ -418,6 +423,47 @@ func tbQueryRelease(c *TBCase, b *natsim.Broker, h *Hist, out *Outcome) {
 	}
 	if n := libraryGoroutines() - leakBase; n > 0 {
 		h.Violate("C15", "leak", "(*queryEvent).startQueryListener", fmt.Sprintf("%d query listener goroutine(s) remain after %d query events expired (real nats.Conn)", n, c.NQE))
+	}
+	if c.Outage {
+		// a query event that expires while the connection is lost: the
+		// client keeps its subscriptions and sends them again when it is
+		// back, so what the expiry does not release locally is subscribed
+		// again at the broker (seeded change C15y)
+		out.Faults["disconnect"]++
+		peer.PublishRequest("call.test.model.1.query", "_REPLY.call.outage", []byte(`{}`))
+		settle(5 * time.Millisecond)
+		known := map[int]bool{}
+		for _, id := range b.LiveClients() {
+			known[id] = true
+		}
+		b.RefuseDial = true
+		b.Disconnect(svcID)
+		settle(time.Duration(c.QueryMs)*time.Millisecond + time.Second)
+		b.RefuseDial = false
+		settle(3 * time.Second)
+		h.Evals += 2
+		if nilCalls != c.NQE+1 {
+			h.Violate("C15", "nil-call-count", "outage", fmt.Sprintf("a query event expired during an outage: callback called with nil %d times for %d query events", nilCalls, c.NQE+1))
+		}
+		live := b.LiveClients()
+		back := -1
+		for _, id := range live {
+			if !known[id] && id > back {
+				back = id // a connection made after the outage began: the service's
+			}
+		}
+		// What is compared is the client's own table of subscriptions. (At
+		// the broker the subscription of such a query event does come back:
+		// nats.go v1.10.0 writes no UNSUB for a subscription drained while
+		// it is reconnecting and sends every subscription it still knows
+		// again when it is back, the draining one included, before it
+		// forgets it. That is the client library's doing, with nothing
+		// go-res could release; noted in DESIGN.md as an observation.)
+		if back < 0 || back == svcID {
+			h.Violate("C15", "no-reconnect", "outage", "the service connection did not come back after the outage")
+		} else if got := nc.NumSubscriptions(); got != clientSubs {
+			h.Violate("C15", "subscription-not-released", "after-outage", fmt.Sprintf("a query event expired while the connection was lost; after the reconnect the service's connection has %d subscriptions, %d before the query events (broker: %v)", got, clientSubs, b.Subscriptions(back)))
+		}
 	}
 	tbShutdown(svc, nc, h)
 	settle(time.Second)
